@@ -37,6 +37,8 @@ pub struct NetCounters {
     pub bytes: [u64; 2],
     pub dropped: [u64; 2],
     pub dropped_mtu: [u64; 2],
+    /// datagrams from s2n-quic larger than quiche's advertised max_udp_payload_size
+    pub dropped_peer_limit: u64,
     pub duplicated: [u64; 2],
     pub max_len: [usize; 2],
 }
